@@ -543,3 +543,22 @@ def find(pattern: str, root: ast.AST, binds=None) -> List[Tuple[ast.AST, Dict[st
         if r is not None:
             out.append((n, r))
     return out
+
+
+def eval_under(outs: Sequence[Outcome], facts: Dict[str, bool], kinds: Sequence[str] = ("return", "raise", "yield", "fall")):
+    """The distinct (kind, value text, effect texts) of the outcomes consistent with ``facts``, each partially evaluated
+    under them.  A function whose behaviour is determined by the facts gives exactly one entry."""
+    seen, res = set(), []
+    for o in select(outs, facts, kinds):
+        v = simplify(o.value, facts) if o.value is not None else None
+        effs = []
+        for e in o.effects:
+            if isinstance(e, (ast.For, ast.While)):
+                effs.append(e)
+            else:
+                effs.append(simplify(e, facts))
+        key = (o.kind, norm(v) if v is not None else None, tuple(norm(e) for e in effs))
+        if key not in seen:
+            seen.add(key)
+            res.append((o.kind, v, effs))
+    return res
